@@ -288,9 +288,9 @@ func scnOf(it *proto.Item, i int) *proto.Scn {
 var F = &proto.Family{ID: "C01", Gen: gen, Check: check,
 	Bound: func(tier string) int {
 		if tier == "thorough" {
-			return 2
+			return 3
 		}
-		return 1
+		return 2
 	},
 	Nontrivial: func(it *proto.Item) bool {
 		return len(it.Scn.Hops) > 0 || len(it.Scn.Inject) > 0 || len(it.Scn.Then) > 0
